@@ -15,7 +15,7 @@ Tokens (no blanks inside a token; `-` = absent / empty):
   `vgentl live,audio,numberInMedia,pto,startNumber,segDuration,dashTs,frNum,frDen,need|- <t:d/…>` → `num,expSeq|-,expDecode,expDur,tol/…`
   `vwin ts,sd,startNumber,pto,tsbdUs,nowUs,astUs,segDurUs` → `start,n` or `none`
   `vtol audio,ts,frNum,frDen,n` → tolerances of the first n template segments
-  `vinit hasUrl,status,ranged <top,…|-> <moov,…|->` → `<load errors> <loaded 0|1> <validate errors if loaded> <errors when every request gets this response>`
+  `vinit hasUrl,status,ranged,video <top,…|-> <moov,…|->` → `<load errors> <loaded 0|1> <validate errors if loaded> <errors when every request gets this response>`
   `vmpd <doc>` → located errors (see `parseDoc`)
   `vrefresh idEqual,prevAst|-,ast|-,prevPublish,publish,mup|-` → errors
 -/
@@ -190,9 +190,9 @@ def parseNames (s : String) : List String := if s == "-" then [] else s.splitOn 
 def vinit : List String → Option String
   | [cfg, top, moov] =>
     match cfg.splitOn "," with
-    | [u, st, rg] => do
+    | [u, st, rg, vd] => do
       let o : InitObs := { hasUrl := ← pBool u, status := ← parseNat st, top := parseNames top,
-                           moov := parseNames moov, ranged := ← pBool rg }
+                           moov := parseNames moov, ranged := ← pBool rg, video := ← pBool vd }
       let l := initLoad o
       some (showList (l.1.map initErrName) ++ " " ++ showBool l.2 ++ " " ++
         showList ((initValidateLoaded o).map initErrName) ++ " " ++ showList ((initErrors o).map initErrName))
